@@ -84,3 +84,17 @@ def _version_written_only_on_mismatch(src):
 
 
 const("rs_version_written_only_on_mismatch", "ant-networking/src/driver.rs", _version_written_only_on_mismatch, ty="bool")
+
+
+def _seed_from_identity(src):
+    """driver.rs build_node: the store's encryption seed is exactly the first 16 bytes of the serialised peer id
+    (a function of the node's identity only: no randomness, no per-start state)."""
+    m = re.search(r"let\s+encryption_seed\s*:\s*\[u8;\s*16\]\s*=\s*peer_id\s*\.to_bytes\(\)\s*\.get\(\.\.16\)\s*"
+                  r"\.expect\([^)]*\)\s*\.try_into\(\)\s*\.expect\([^)]*\)\s*;", src)
+    decls = re.findall(r"let\s+(mut\s+)?encryption_seed\b", src)
+    n = 1 if (len(decls) == 1 and not decls[0] and not re.search(r"encryption_seed\s*\[", src)) else 0
+    peer = re.search(r"let\s+peer_id\s*=\s*PeerId::from\(self\.keypair\.public\(\)\)\s*;", src)
+    return bool(m) and bool(peer) and n == 1
+
+
+const("rs_seed_from_identity", "ant-networking/src/driver.rs", _seed_from_identity, ty="bool")
